@@ -932,11 +932,16 @@ class System:
             domain, phases, ener, dname, group, rail = [], [], [], "none", [], []
             sources, dwarns, rail_in, pstate = {}, {}, [], {}
             show_trise = False
+            ndomain = {}
             for n in self._topo_nodes:  # [vi, vo, ii, io]
                 phase_config = self._phase_lkup[n]
                 name = self._g[n]._params["name"]
                 names += [name]
-                dname = self._find_domain(n, dname, v)
+                if self._parents[n] != -1 and self._g[n]._component_type.name != "PMUX":
+                    dname = ndomain[self._parents[n][0]]
+                else:
+                    dname = self._find_domain(n, dname, v)
+                ndomain[n] = dname
                 domain += [dname]
                 phases += [ph]
                 group += [self._g.attrs["groups"][name]]
